@@ -26,7 +26,7 @@ META = {
 
 def shards(tier):
     if tier == "quick":
-        return [{"label": "cubes%d" % i, "n": 1500} for i in range(12)]
+        return [{"label": "cubes%d" % i, "n": 6000} for i in range(14)]
     return [{"label": "cubes%d" % i, "n": 150000} for i in range(16)]
 
 
